@@ -338,12 +338,18 @@ def run_driver(exe, args=(), stdin_path=None, stdout_path=None, timeout=1200, en
 
 
 def read_ndjson(path):
+    """a driver that is killed (sanitizer abort, watchdog) may leave its last line unfinished: that line is dropped,
+    the callers decide from the exit status and the missing summary; a bad line anywhere else is an error"""
     out = []
-    with open(path) as f:
-        for line in f:
-            line = line.strip()
-            if line:
-                out.append(json.loads(line))
+    with open(path, errors="replace") as f:
+        lines = [l.strip() for l in f]
+    lines = [l for l in lines if l]
+    for i, line in enumerate(lines):
+        try:
+            out.append(json.loads(line))
+        except ValueError:
+            if i != len(lines) - 1:
+                raise
     return out
 
 
